@@ -8,9 +8,8 @@ claimed=$(python3 -c "import json;print(' '.join(c['property_id'] for c in json.
 for id in $ids; do
   p=$(python3 -c "import json;print(json.load(open('/verif/seeded/$id/meta.json'))['property'])")
   case " $claimed " in *" $p "*) ;; *) echo "$id $p not-claimed"; continue;; esac
-  if ! git -C $WT apply /verif/seeded/$id/patch.diff 2>/dev/null; then
-     (cd $WT && patch -p1 --fuzz=3 -s < /verif/seeded/$id/patch.diff >/dev/null 2>&1) || { echo "$id $p patch-does-not-apply"; git -C $WT checkout -q -- .; git -C $WT clean -fdq; continue; }
-  fi
+  # strict application only: a patch applied with fuzz can land in the wrong function
+  if ! git -C $WT apply /verif/seeded/$id/patch.diff 2>/dev/null; then echo "$id $p patch-does-not-apply"; continue; fi
   out=$(cd /verif && GOVC_REPO=$WT GOVC_OUT=$OUT ./check $p ${SWEEP_ARGS} 2>&1)
   v=$(echo "$out" | grep -c '^VIOLATION')
   first=$(echo "$out" | grep -m1 'obligation:' )
